@@ -5,13 +5,13 @@ shard = sys.argv[1]
 extra = sys.argv[2] if len(sys.argv) > 2 else ""
 hdr = """From Coq Require Import NArith List Uint63.
 Import ListNotations.
-From Virel Require Import Lib.Config Lib.CheckLib Lib.AMap Gen.Params Model.Ledger Model.Node Check.Hist Check.C01 Check.C03.
+From Virel Require Import Lib.Config Lib.CheckLib Lib.AMap Gen.Params Model.Ledger Model.Node Check.Hist Check.C01 Check.C03 Spec.WellFormed.
 Open Scope N_scope.
 """
 tr = """
 Definition corr := Eval vm_compute in map (hist_corr cfg_verifnet) cases.
 Print corr.
-Definition c03 := Eval vm_compute in map c03_hist cases.
+Definition c03 := Eval vm_compute in map (c03_hist cfg_verifnet) cases.
 Print c03.
 Definition c01 := Eval vm_compute in map (c01_hist cfg_verifnet) cases.
 Print c01.
